@@ -132,6 +132,7 @@ type truncCall struct {
 	N            uint64         `json:"n"`
 	CommittedAt  uint64         `json:"committedAtStart"`
 	PrecommitAt  uint64         `json:"precommittedAtStart"`
+	Dist         int            `json:"farthestEarlyWrittenTx,omitempty"` // largest id-n of a committed tx with a value in a file below n's file
 	Err          string         `json:"err,omitempty"`
 	MinChunkPost map[string]int `json:"firstChunkAfter"` // per value log (1-based): lowest chunk file that exists afterwards
 }
@@ -151,16 +152,65 @@ type world struct {
 	res     *vh.Result
 	hung    bool
 	split   bool
+	mc      int // MaxConcurrency (and MaxActiveTransactions) of the store; 0 = 16
 }
 
 func (w *world) options() *store.Options {
 	o := store.DefaultOptions().WithSynced(false).WithEmbeddedValues(false).
-		WithMaxConcurrency(16).WithMaxIOConcurrency(w.m).WithFileSize(w.f * w.unit).
+		WithMaxConcurrency(w.maxConc()).WithMaxActiveTransactions(w.maxActive()).WithMaxIOConcurrency(w.m).WithFileSize(w.f * w.unit).
 		WithMaxTxEntries(8).WithMaxKeyLen(32).WithMaxValueLen(8 * w.unit).WithVLogCacheSize(w.cache).
 		WithVLogMaxOpenedFiles(512).WithWriteBufferSize(1 << 12).WithLogger(logger.NewMemoryLoggerWithLevel(logger.LogError))
 	o.WithIndexOptions(o.IndexOpts.WithFlushBufferSize(1 << 12).WithCacheSize(32).WithMaxActiveSnapshots(8))
 	o.WithAHTOptions(o.AHTOpts.WithWriteBufferSize(1 << 12))
 	return o
+}
+
+func (w *world) maxConc() int {
+	if w.mc > 0 {
+		return w.mc
+	}
+	return 16
+}
+
+// maxActive: MaxActiveTransactions bounds the pre-committed, not yet committed transactions; histories with split
+// commit keep several of them, the others run with MaxConcurrency + 1
+func (w *world) maxActive() int {
+	if w.split {
+		return 16
+	}
+	return w.maxConc() + 1
+}
+
+// farEarly looks at the store right before TruncateUptoTx(n): is there a committed tx more than MaxConcurrency ids
+// past n with a value in a chunk file of n's value log BELOW the file of n's first value (written early, id assigned
+// late)?  Returns the largest distance id-n of any committed tx with such a value (0 = none).
+func (w *world) farEarly(n uint64) (dist int, beyond bool) {
+	st := w.st
+	last := st.LastCommittedTxID()
+	if n == 0 || n >= last {
+		return 0, false
+	}
+	tx := store.NewTx(st.MaxTxEntries(), st.MaxKeyLen())
+	if st.ReadTx(n, false, tx) != nil || len(tx.Entries()) == 0 || tx.Entries()[0].VLen() == 0 {
+		return 0, false
+	}
+	cutLog, cutOff := decodeOff(tx.Entries()[0].VOff())
+	cutChunk := cutOff / int64(w.f*w.unit)
+	for id := n + 1; id <= last; id++ {
+		if st.ReadTx(id, false, tx) != nil {
+			continue
+		}
+		for _, e := range tx.Entries() {
+			l, off := decodeOff(e.VOff())
+			if e.VLen() > 0 && l == cutLog && off/int64(w.f*w.unit) < cutChunk {
+				dist = int(id - n)
+				if dist > w.maxConc() {
+					beyond = true
+				}
+			}
+		}
+	}
+	return dist, beyond
 }
 
 func (w *world) open() error {
@@ -280,6 +330,13 @@ func firstChunks(ch [][]int) map[string]int {
 // truncate runs the real TruncateUptoTx(n) under the liveness deadline and records what it removed.
 func (w *world) truncate(n uint64) (hung bool, err error) {
 	tc := truncCall{N: n, CommittedAt: w.st.LastCommittedTxID(), PrecommitAt: w.st.LastPrecommittedTxID()}
+	if d, beyond := w.farEarly(n); d > 0 {
+		tc.Dist = d
+		w.res.Count(fmt.Sprintf("trunc:early-written-tx-at-distance:%d", d), 1)
+		if beyond {
+			w.res.Count("trunc:tx-beyond-MaxConcurrency-in-file-below-cut-file", 1)
+		}
+	}
 	_, hung, _ = vh.Guard(hangDeadline, func() { err = w.st.TruncateUptoTx(n) })
 	if hung {
 		w.hung = true
